@@ -574,9 +574,25 @@ def dispatch(prog: Program, rep) -> None:
                 m = prog.lookup_method(c, nm)
                 rep.check(m is not None and not prog.is_stub(m), "implementations-complete", c.qualname, nm, f"{c.name} implements {nm}", f"{c.module.relpath}:{c.node.lineno}")
     # symmetric solver asks for a symmetric linear solver
-    sym = prog.func("pygradflow.step.solver.symmetric_step_solver.SymmetricStepSolver.linear_solver")
+    symc = prog.cls("pygradflow.step.solver.symmetric_step_solver.SymmetricStepSolver")
+    sym = prog.lookup_method(symc, "linear_solver")
+    if sym is None:
+        raise AnalysisError("SymmetricStepSolver.linear_solver has vanished")
     calls = [x for x in own_nodes(sym.node) if isinstance(x, ast.Call) and dotted(x.func) == "linear_solver"]
-    ok = len(calls) == 1 and isinstance(kwarg(calls[0], "symmetric"), ast.Constant) and kwarg(calls[0], "symmetric").value is True
+    kv = kwarg(calls[0], "symmetric") if len(calls) == 1 else None
+    ok = isinstance(kv, ast.Constant) and kv.value is True
+    if not ok and is_self_attr(kv):
+        # a class-level flag: the value SymmetricStepSolver's own class body (or the nearest base) binds, never stored on instances
+        val = None
+        for k_ in prog.mro(symc):
+            for st_ in k_.node.body:
+                tg_ = st_.targets[0] if isinstance(st_, ast.Assign) and len(st_.targets) == 1 else getattr(st_, "target", None)
+                if isinstance(tg_, ast.Name) and tg_.id == kv.attr and getattr(st_, "value", None) is not None and val is None:
+                    val = st_.value
+            if val is not None:
+                break
+        stored = any(isinstance(n_, ast.Attribute) and n_.attr == kv.attr and isinstance(n_.ctx, ast.Store) for f_ in prog.functions.values() for n_ in own_nodes(f_.node))
+        ok = isinstance(val, ast.Constant) and val.value is True and not stored
     rep.check(ok, "dispatch-exhaustive", sym.qualname, "linear_solver(..., symmetric=True)", "the symmetric formulation requests a symmetric linear solver", sym.loc())
 
 
